@@ -115,15 +115,16 @@ class XPolicy(fakenet.Policy):
 
     def tls_want(self, sock, op):
         if self.settle or not self.wants:
-            return False
-        return self.ch.choose(2, "tlswant-%s:%s" % (op, self._tag(sock))) == 1
+            return 0
+        return self.ch.choose(3, "tlswant-%s:%s" % (op, self._tag(sock)))
 
 
 class TcpWorld:
     """one server + n clients over a fresh FakeNet"""
 
     def __init__(self, ch, tls=False, bs=8096, policy=None, nclients=1, wirelog=False, port=6101,
-                 server_kwa=None, client_kwa=None, tymth=None):
+                 server_kwa=None, client_kwa=None, tymth=None, wlflags=(True, True)):
+        self.wlflags = wlflags      # (rxed, txed) of the wire logs
         self.ch = ch
         self.tls = tls
         self.policy = policy if policy is not None else XPolicy(ch)
@@ -164,7 +165,7 @@ class TcpWorld:
             raise
 
     def _wl(self, name):
-        wl = wiring.WireLog(samed=False, filed=False, fmt=b"%(data)b", name=name)
+        wl = wiring.WireLog(samed=False, filed=False, fmt=b"%(data)b", name=name, rxed=self.wlflags[0], txed=self.wlflags[1])
         wl.reopen()
         return wl
 
